@@ -233,7 +233,7 @@ class Ctx:
         self.assumptions = []
         self.rule = ""
         self.alphabet = None
-        self.budget_s = float(os.environ.get("VERIF_BUDGET_S", "0")) or (150 if tier == "quick" else 1500)
+        self.budget_s = float(os.environ.get("VERIF_BUDGET_S", "0")) or (150 if tier == "quick" else 2700)
 
     @property
     def quick(self):
@@ -307,6 +307,13 @@ def finish(ctx: Ctx, extra_cov=None):
         "alphabet": ctx.alphabet,
         "known_findings_hit": [s for s, _ in known_hit],
     }
+    # control-state coverage of full-pipeline runs (mc.impl.Traced): which parser states were visited, in which an unexpected line / EOF was seen
+    visited = sorted({st[0] for st in acc.states if isinstance(st, tuple) and len(st) == 4 and isinstance(st[0], int) and isinstance(st[1], tuple)})
+    if visited:
+        cov["parser_states_visited"] = visited
+        cov["parser_states_with_unexpected_line"] = sorted({t[1] for t in acc.trans if isinstance(t, tuple) and t and t[0] == 'unexpected-in' and not t[2]})
+        cov["parser_states_with_unexpected_eof"] = sorted({t[1] for t in acc.trans if isinstance(t, tuple) and t and t[0] == 'unexpected-in' and t[2]})
+        cov["matcher_modes_visited"] = sorted({repr(st[1]) for st in acc.states if isinstance(st, tuple) and len(st) == 4 and isinstance(st[1], tuple)})
     cov.update(ctx.notes)
     if extra_cov:
         cov.update(extra_cov)
